@@ -1053,6 +1053,64 @@ def _brief(v):
     return r if len(r) < 60 else '%s...%s (%d characters)' % (r[:12], r[-6:], len(v))
 
 
+class WholeWithFloat(Sub):
+    name = 'c06.whole_with_float'
+    rule = ('every pair of a whole number beyond 2^53 (2^53+1, 10^17+1, 10^20+1, 10^308, 10^310, 2^1024, 3*10^400, both signs; as '
+            'a variable and written as a literal) with a float (0.0, 0.001, 0.5, 1.0, -2.5, 1e-300, 1e10, 2^53, 1e17, 1e20, 1e308, '
+            '5e-324; a variable) under + - * / in both orders: "the exact arithmetic on those values" - the exact rational '
+            'result rounded ONCE to a double where it is one (the interpreter\'s own mixed arithmetic rounds the whole number '
+            'first, or refuses it: 10^310*0.001 is 1e307, (2^53+1)-2^53 as a float is 1), #DIV/0! for a zero divisor, an '
+            'error where the exact result is beyond the largest double; non-trivial = all')
+    min_cases = 10
+    min_nontrivial = 800
+    WHOLES = [2 ** 53 + 1, -(2 ** 53 + 1), 10 ** 17 + 1, 10 ** 20 + 1, 10 ** 308, 10 ** 310, -(10 ** 310), 2 ** 1024, 3 * 10 ** 400]
+    FLOATS = [0.0, 0.001, 0.5, 1.0, -2.5, 1e-300, 1e10, 9007199254740992.0, 1e17, 1e20, 1e308, 5e-324]
+
+    def cases(self, tier, unit):
+        for i in range(len(self.WHOLES)):
+            for literal in (0, 1):
+                yield [i, literal]
+
+    def check(self, env, case):
+        from fractions import Fraction as Fr
+        w = self.WHOLES[case[0]]
+        out = []
+        MAXD = Fr(1.7976931348623157e308)
+        wtext = ('(0-%d)' % -w) if w < 0 else str(w)
+        for f in self.FLOATS:
+            for op in OPS:
+                for whole_left in (True, False):
+                    env.nt()
+                    if case[1]:
+                        text = ('%s%sxf' % (wtext, op)) if whole_left else ('xf%s%s' % (op, wtext))
+                        o = env.evo(text, {'xf': f})
+                    else:
+                        text = ('xw%sxf' % op) if whole_left else ('xf%sxw' % op)
+                        o = env.evo(text, {'xw': w, 'xf': f})
+                    a, b = (w, f) if whole_left else (f, w)
+                    if op == '/' and b == 0:
+                        want = 'div0'
+                    else:
+                        exact = {'+': lambda: Fr(a) + Fr(b), '-': lambda: Fr(a) - Fr(b), '*': lambda: Fr(a) * Fr(b),
+                                 '/': lambda: Fr(a) / Fr(b)}[op]()
+                        want = 'err' if abs(exact) > MAXD * (1 + Fr(1, 2 ** 54)) else exact
+                    if want == 'div0':
+                        ok = o == ['e', '#DIV/0!']
+                    elif want == 'err':
+                        ok = o[0] == 'e'
+                    else:
+                        ok = o[0] == 'v' and isinstance(o[1], (int, float)) and not isinstance(o[1], bool) and (
+                            abs(Fr(o[1]) - want) <= max(abs(want) / 2 ** 52, Fr(5e-324)))
+                    if not ok:
+                        out.append(fail('%s with the whole number %s and xf = %r gives %r, expected %s' % (
+                            text[:80], _brief(str(w)), f, o, '#DIV/0!' if want == 'div0' else (
+                                'an error (the exact result is beyond the largest double)' if want == 'err' else repr(float(want)))),
+                            None if isinstance(want, str) else float(want), o))
+                        if len(out) >= 4:
+                            return out
+        return out
+
+
 class ExactIntegers(Sub):
     name = 'c06.exact_integers'
     rule = ('all ordered pairs over 23 operands (integers incl. adjacent ones above 2^53, logicals, blank, text spelling an '
@@ -1200,4 +1258,4 @@ class ArrayScale(Sub):
 
 
 SUBS = [ScalarPairs(), ArrayScalar(), ArrayArray(), Mismatch(), OneItem(), RangeShapes(), Extremes(), JoinRoundTrip(), ConcatArrays(), Nested(), LiteralArrays(), Concat(), EarlyDates(),
-        ExactIntegers(), ArrayReuse(), ArrayScale()]
+        ExactIntegers(), WholeWithFloat(), ArrayReuse(), ArrayScale()]
